@@ -3,7 +3,7 @@ import itertools
 
 import numpy as np
 
-from symtt.core import scenario, HarnessError, SkipTV
+from symtt.core import unchanged_inputs, scenario, HarnessError, SkipTV
 from symtt import dense as D
 from .common import mk_cores, meta_ok
 from .C15 import _funcs, _dense
@@ -113,6 +113,7 @@ def _rotation_data(seed, d, m):
 
 
 @scenario('C18', 'amuset', _grid)
+@unchanged_inputs('x')
 def amuset(ctx, variant, d, m, mix, pairs, perm, ef=False):
     """reduced matrices, ordering by |lambda - 1|, eigentensors per index-set pair"""
     TT, ted, tdt = ctx.R.TT, ctx.R.tedmd, ctx.R.transform
